@@ -104,6 +104,15 @@ impl Report {
     pub fn finish(&self, rule: &str, assumptions: &[&str]) -> i32 {
         let mut g = self.inner.lock().unwrap();
         g.evaluations += self.evals.load(std::sync::atomic::Ordering::Relaxed);
+        // panics raised inside the subject while a case ran
+        {
+            let panics = crate::explore::SUBJECT_PANICS.lock().unwrap();
+            for (loc, msg) in panics.iter() {
+                let short = loc.rsplit("/repo/").next().unwrap_or(loc).to_string();
+                let e = g.violations.entry(format!("subject_panicked/{short}")).or_insert((0, json!({"location": loc, "message": msg})));
+                e.0 += 1;
+            }
+        }
         let verif = std::env::var("VERIF_DIR").unwrap_or_else(|_| "/verif".to_string());
         let seed: i64 = std::env::var("VERIF_SEED").ok().and_then(|s| s.parse().ok()).unwrap_or(0);
         let known = load_known(&verif, &self.property);
